@@ -6,18 +6,25 @@ pub mod c02_producers;
 pub mod c03;
 pub mod c04;
 pub mod c05;
+pub mod c09;
+pub mod c09_model;
 pub mod c10;
 pub mod c11;
+pub mod c18;
+pub mod c18_proc;
+pub mod c19;
+pub mod c19_gen;
 pub mod c20;
 
 pub fn all() -> Vec<PropDef> {
-    vec![c01::def(), c02::def(), c03::def(), c04::def(), c05::def(), c10::def(), c11::def(), c20::def()]
+    vec![c01::def(), c02::def(), c03::def(), c04::def(), c05::def(), c09::def(), c10::def(), c11::def(), c18::def(), c19::def(), c20::def()]
 }
 
 /// entry point of `tvv child …` (used by the checks that need process isolation)
 pub fn child_main(args: &[String]) -> i32 {
     match args.first().map(|s| s.as_str()) {
         Some("c11") => c11::child_main(&args[1..]),
+        Some("c18") => c18::child_main(args),
         _ => 2,
     }
 }
